@@ -62,7 +62,7 @@ TEnter ==
         /\ stk' = Append(IF stk = <<>> THEN stk ELSE SetTop([Top EXCEPT !.st = "waiting"]),
                          [p |-> p, key |-> e.key, a |-> e.alpha, b |-> e.beta, cur |-> e.cur, max |-> e.max, ext |-> e.ext, st |-> "entered",
                           mv |-> StartPos, hasmv |-> FALSE, extend |-> 0, best |-> FALSE, any |-> FALSE, probe |-> "none", pval |-> 0,
-                          tried |-> {}, lastk |-> 0 - 100000, stat |-> 0])
+                          tried |-> {}, lastk |-> 0 - 100000, stat |-> 0, a0 |-> e.alpha])
   /\ ret' = Unknown /\ UNCHANGED <<pos, hist, root, mate>>
 
 \* a frame finishes with value v (its own point of view): hand it to the parent
@@ -108,7 +108,7 @@ OrderKey(m) == WorthQ(m.piece) - WorthQ(m.capture)      \* the code sorts by -(c
 CapturesOf(p) == { m \in Legal(p) : m.capture # "." }
 QFrame(p, a, b, cur) == [p |-> p, key |-> "", a |-> a, b |-> b, cur |-> cur, max |-> 0, ext |-> 0, st |-> "qentered",
                          mv |-> StartPos, hasmv |-> FALSE, extend |-> 0, best |-> FALSE, any |-> FALSE, probe |-> "none", pval |-> 0,
-                         tried |-> {}, lastk |-> 0 - 100000, stat |-> 0]
+                         tried |-> {}, lastk |-> 0 - 100000, stat |-> 0, a0 |-> a]
 
 TQEnter ==
   /\ IsEvent("QEnter")
@@ -164,6 +164,12 @@ TQReturn ==
   /\ IsEvent("QReturn")
   /\ LET v == Rec[l].value IN
        /\ Diag("DRIFT", Top.st \in {"qcut", "qloop"}, [kind |-> "quiescence return out of place", st |-> Top.st])
+       \* sound whatever the search looks like: a "being mated" score says every reply loses, so every reply must have been tried
+       \* (only for an exact value: one the node raised above the alpha it was given, not a fail-low or fail-high bound)
+       /\ (IF v <= 0 - mate[Len(mate)] /\ Top.st = "qloop" /\ v > Top.a0
+           THEN Diag("C06", Legal(Top.p) \subseteq Top.tried, [kind |-> "capture search returned a being-mated score for a position with legal moves it never tried", pos |-> ToFen(Top.p), value |-> v,
+                                                                 tried |-> Cardinality(Top.tried), legal |-> Cardinality(Legal(Top.p))])
+           ELSE TRUE)
        /\ (IF Top.st = "qcut"
            THEN Diag("DRIFT", v = Top.pval, [kind |-> "quiescence stand-pat or cut-off returned another value than the rule gives", pos |-> ToFen(Top.p), value |-> v, expected |-> Top.pval, static |-> Top.stat])
            ELSE /\ Diag("DRIFT", CapturesOf(Top.p) \subseteq Top.tried, [kind |-> "quiescence returned before trying every legal capture", pos |-> ToFen(Top.p), tried |-> Cardinality(Top.tried), captures |-> Cardinality(CapturesOf(Top.p))])
